@@ -35,6 +35,10 @@ class Ctx:
         self.loop = loop or VLoop().enter()
         self.app, self.ezsp, self.gw, self.ncp = appenv.make_app(self.loop, version)
         self.gw.on_send = None           # frames are answered by hand
+        if op == "ensure":
+            # the application's own callback handler is registered on the EZSP object, as after start_network(): what it makes of
+            # the status events it sees must not let a later bring-up skip the command or the event
+            self.ezsp.add_callback(self.app.ezsp_callback_handler)
         self.cls = type(self.ezsp._protocol)
         self.base_callbacks = len(self.ezsp._callbacks)
         self.answered = 0xF0             # sequence number of the last command the NCP answered (what callbacks carry)
@@ -77,10 +81,13 @@ def start_op(ctx):
     elif op == "leave":
         task = ctx.loop.create_task(ctx.ezsp.leaveNetwork())
     elif op == "ensure":
+        n_sent = len(ctx.gw.sent)
         task = ctx.loop.create_task(ctx.app._ensure_network_running())
         ctx.loop.settle()
+        ctx.skipped_query = len(ctx.gw.sent) == n_sent or ctx.last_request()[1] != "networkState"
+        if ctx.skipped_query:
+            return task
         seq, name = ctx.last_request()
-        assert name == "networkState", name
         ctx.rx(ctx.frame("networkState", [t.EmberNetworkStatus.NO_NETWORK], seq))
         ctx.answered = seq
     elif op == "scan":
@@ -235,6 +242,13 @@ def run_sequence(version, op, events, second=True):
         # run it again from the state reached
         if second and not leak:
             task2 = start_op(ctx)
+            if getattr(ctx, "skipped_query", False):
+                viol.append(f"{label}: the bring-up run again afterwards (NCP restarted, no network) did not ask the NCP for its network state "
+                            f"({outcome(task2) if task2.done() else 'pending'})")
+                if not task2.done():
+                    task2.cancel()
+                    ctx.loop.settle()
+                return viol, (op, exp_kind, exp_idx)
             seq2, cmd2 = ctx.last_request()
             if op == "scan":
                 ctx.rx(ctx.frame(cmd2, [ctx.status("ok")], seq2))
